@@ -35,7 +35,7 @@ type pipeCase struct {
 			T string `json:"t"`
 			V string `json:"v"`
 		} `json:"up"`
-		Ct   string `json:"ct"`
+		Ct string `json:"ct"`
 	} `json:"cfg"`
 	Req struct {
 		Kind string `json:"kind"`
